@@ -11,14 +11,14 @@ THEOREMS = ["Typedpy.C15." + t for t in (
     "frame", "frame_alone", "use_changes_no_view", "create_serializer_frame", "use_preserves_coherence",
     "create_serializer_preserves_coherence", "define_preserves_coherence", "define_changes_no_other_class",
     "accept_decision_frame", "safe_config_of_safe_tables", "C15_of_safe_config", "frame_safe_tables",
-    "current_config_safe", "unsafe_rows_are_outside_model", "tables_ok", "C15_today_partial",
-    "excluded_today", "use_changes_no_view_today", "pinned_config", "config_no_worse",
+    "current_config_le_mro", "unsafe_rows_are_outside_model", "tables_ok", "C15_today_partial",
+    "C15_today_if_safe", "current_config_safe", "C15_today", "excluded_today_empty", "excluded_today", "use_changes_no_view_today", "pinned_config", "config_no_worse",
     "name_keyed_registry_breaks_frame", "inplace_required_breaks_frame", "registry_fixed_example",
     "required_fixed_example", "C15_statement_fails_with_findings", "counterexamples_are_excluded",
     "frame_example", "camel_key_dropped_breaks_frame", "refs_example", "nested_frame_example",
-    "nested_create_example", "mro_serializer_breaks_frame", "C15_statement_fails_today", "construct_result_frame",
-    "construct_result_unchanged_by_use", "construct_result_example", "use_state_frame", "use_state_frame_today",
-    "state_frame_example")]
+    "nested_create_example", "mro_serializer_breaks_frame", "C15_statement_fails_with_mro_lookup",
+    "mro_fixed_example", "construct_result_frame", "construct_result_unchanged_by_use",
+    "construct_result_example", "use_state_frame", "use_state_frame_today", "state_frame_example")]
 RULE = ("histories of 2-5 (thorough: 2-7) class definitions — roots, subclasses, Omit/Pick/Partial/AllFieldsRequired/"
         "Extend-derived classes, FastSerializable classes, same-named classes, snake_case field names of which half "
         "come from a small pool so that unrelated classes share field names, renamed serialization keys, fields that "
@@ -41,7 +41,7 @@ RULE = ("histories of 2-5 (thorough: 2-7) class definitions — roots, subclasse
         "inside one or two functions, with class names from a pool of four so that a function-local and a module-level "
         "class often share a name, fields referring to other classes by name; plus ~330 directed histories: the repaired "
         "defects, FastSerializable base/subclass/owner triples with the serializers generated in every order, owner-side "
-        "nested mappers with the owner's serializer generated before the nested class is used, the open finding "
+        "nested mappers with the owner's serializer generated before the nested class is used, the repaired MRO finding "
         "(owner of a class whose serializer cannot be generated, base class used first), base/derived pairs sharing an "
         "overlapping AnyOf field object through every derivation operator, positional item classes sharing a mapped "
         "field name with the container, every derivation operator on a class with optional/defaulted/renamed fields, the "
@@ -74,8 +74,8 @@ ASSUMPTIONS = [
     "sub-history), also for the classes that refer to cls",
     "the repr of a class inside error texts lists the generated serializer attributes of the class; these are erased "
     "from the compared texts (they are compared as state: ownSerialize / created)",
-    "OPEN FINDING excluded from the theorem and reproduced by directed histories: a FastSerializable owner of a class "
-    "whose own serializer cannot be generated (mro-resolved-serialize-skips-generation)",
+    "the MRO finding (owner of a class whose own serializer cannot be generated; repaired in /repo 981c83d) stays in the "
+    "directed histories and as a table-driven model switch",
     "positional arrays of FastSerializable item classes are judged by the oracle alone",
     "uniqueness features (@unique, off by default) are history-dependent by design and outside the claim",
     "PYTHONHASHSEED=0",
@@ -93,7 +93,7 @@ def pre_build():
 
 
 def cases(rng, tier):
-    return S.announce(S.gen_cases(rng, tier, 800 if tier == "quick" else 12000))
+    return S.announce(S.gen_cases(rng, tier, 600 if tier == "quick" else 10000))
 
 
 def search_cases(rng, tier):
